@@ -1418,7 +1418,7 @@ Proof.
       apply (rinv_fields s3); try (unfold clear_old_top; cbn; destruct (top _ n); reflexivity). exact H3.
     + apply (rinv_fields _ _ H0); reflexivity.
   - apply rinv_guard; [discriminate|exact Hi|]. intros s1 H1. apply (rinv_struct s1); [exact H1|apply se_op_set_name|].
-    unfold op_set_name. destruct nm; [apply nostuck_dict_set|]. destruct (has_key _ _ _); [apply nostuck_dict_del|apply nostuck_dict_set].
+    unfold op_set_name. destruct nm; [apply nostuck_dict_set|]. destruct (has_key _ _ _); [apply nostuck_dict_del|apply nostuck_ret].
   - apply rinv_guard; [discriminate|exact Hi|]. intros s1 H1. apply (rinv_struct s1); [exact H1|apply se_op_del_name|].
     unfold op_del_name. destruct (has_key _ _ _); [apply nostuck_dict_del|apply nostuck_ret].
   - apply rinv_guard; [discriminate|exact Hi|]. intros s1 H1. apply (rinv_struct s1); [exact H1|apply se_dict_set|apply nostuck_dict_set].
